@@ -5,14 +5,15 @@
 (* is reported (MISMATCH line) and validation continues with the state      *)
 (* advanced from what the implementation really did.                        *)
 (***************************************************************************)
-EXTENDS Import, Strings, Pem, KeyLife, PathValidation, Cli, TLC, Json, IOUtils
+EXTENDS Import, Strings, Pem, KeyLife, PathValidation, Cli, Purity, TLC, Json, IOUtils
 
 Rec == ndJsonDeserialize(IOEnv.TRACE)
 
 VARIABLES l, nmis,
           names,     \* C20: handle -> distinguished name as the specification tracks it
-          cov        \* coverage ghost: set of coverage tokens reached by the validated events
-tvars == <<l, nmis, names, cov>>
+          cov,       \* coverage ghost: set of coverage tokens reached by the validated events
+          reg        \* C15/C16: write-once registers, generation call -> digest of its to-be-signed bytes
+tvars == <<l, nmis, names, cov, reg>>
 
 ReqCommon(ev) == { <<"C10.no_panic", ev.out # "Panic">>, <<"C10.no_timeout", ev.out # "Timeout">> }
 
@@ -29,6 +30,8 @@ ReqCertEv(ev) ==
              \cup ReqCertC04(ev.args, ev.obs) \cup ReqCertC05(ev.args, ev.obs) \cup ReqCertC09(ev.args, ev.obs)
         ELSE { <<"C02.decodable", FALSE>>, <<"C04.der_strict", FALSE>> })
        \cup { <<"C01.fail_yields_err_and_no_artefact", ~ev.args.signerFails>> }
+       \cup (IF ev.obs.parseOk THEN { <<"C16.signature_verifies_under_other_implementations",
+                                         ev.obs.sigOk.openssl = "ok" /\ ev.obs.sigOk.ring \in {"ok", "na"}>> } ELSE {})
   ELSE { <<"C02.issued_when_encodable", ~CertMustSucceed(ev)>> }
 
 ReqCsrEv(ev) ==
@@ -89,6 +92,8 @@ ReqKeyEv(ev) ==
 (* coverage tokens contributed by an event *)
 CovOf(ev) ==
   CASE ev.op = "Pem" /\ ev.out = "Ok" -> { <<"pem", ev.args.kind, ev.args.derLen % 48>>, <<"pemalg", ev.args.kind, ev.args.alg>> }
+    [] ev.op = "Gen" /\ ev.out = "Ok" -> { <<"gen", ev.be, ev.args.regKey>>, <<"genphase", ev.args.phase>> }
+    [] ev.op = "Build" -> { <<"build", ev.args.what, ev.args.backend, ev.args.pem, ev.args.x509parser, ev.args.zeroize>> }
     [] OTHER -> {}
 PemResiduesCovered == \A k \in {"cert", "csr", "crl"} : \A r \in 0..47 : <<"pem", k, r>> \in cov
 
@@ -128,6 +133,14 @@ ReqOf(ev) ==
      [] ev.op = "Validate" ->
           { <<"C12.verdict_eq", Covered(ev.args.validator, ev.args) =>
                                   ev.obs.accept = Verdict(ev.args.chain, ev.args.day, ev.args.purpose)>> }
+     [] ev.op = "Gen" -> (IF ev.out = "Ok" THEN ReqGen(reg, ev.be, ev.args, ev.obs) ELSE {<<"C15.generation_succeeds", FALSE>>})
+     [] ev.op = "Build" -> { <<"C16.feature_combination_builds", ev.obs.ok>> }
+     [] ev.op = "KeyXfer" ->
+          { <<"C16.exported_key_loads_in_other_back_end",
+                (Offered(ev.args.to, ev.args.alg) /\ (ev.args.entry \in {"der-explicit", "pem-explicit"} \/ AutoDetect(ev.args.to, ev.args.type) = ev.args.alg))
+                  => ev.out = "Ok" /\ ev.obs.pubRaw = ev.args.pubRaw /\ ev.obs.alg = ev.args.alg>>,
+            <<"C16.exported_spki_is_the_keys_spki", ev.args.exportedSpkiEqOpenssl>>,
+            <<"C16.auto_detected_key_has_same_public_key", ev.out = "Ok" => ev.obs.pubRaw = ev.args.pubRaw>> }
      [] ev.op = "CliRun" -> ReqCli(ev.be, ev.args.opts, ev.obs)
      [] ev.op = "ImportCa" -> ReqImportEv(ev)
      [] ev.op = "Chain" -> ReqChain(ev.args, ev.out, ev.obs)
@@ -141,7 +154,7 @@ Bad(ev) == {cl[1] : cl \in {x \in ReqOf(ev) : ~x[2]}}
 
 Report(ev, bad) == \A cl \in bad : PrintT("MISMATCH|" \o ToString(ev.i) \o "|" \o cl \o "|" \o ev.case)
 
-TraceInit == l = 1 /\ nmis = 0 /\ names = <<>> /\ cov = {}
+TraceInit == l = 1 /\ nmis = 0 /\ names = <<>> /\ cov = {} /\ reg = <<>>
 
 Step == /\ l <= Len(Rec)
         /\ LET ev == Rec[l]
@@ -150,13 +163,17 @@ Step == /\ l <= Len(Rec)
               /\ nmis' = nmis + Cardinality(bad)
               /\ names' = NamesNext(ev)
               /\ cov' = cov \cup CovOf(ev)
+              /\ reg' = IF ev.op = "Gen" /\ ev.out = "Ok" THEN RegStore(reg, ev.args.regKey, ev.obs, ev.be) ELSE reg
         /\ l' = l + 1
 
 Done == /\ l = Len(Rec) + 1
         /\ PrintT("FINAL|" \o ToString(Len(Rec)) \o "|" \o ToString(nmis) \o "|pemResidues=" \o ToString(PemResiduesCovered)
-                  \o ";covTokens=" \o ToString(Cardinality(cov)))
+                  \o ";covTokens=" \o ToString(Cardinality(cov))
+                  \o ";featureSets=" \o ToString(Cardinality({y \in cov : y[1] = "build" /\ y[2] = "rcgen"}))
+                  \o ";genBackends=" \o ToString(Cardinality({x[2] : x \in {y \in cov : y[1] = "gen"}}))
+                  \o ";registers=" \o ToString(Cardinality(DOMAIN reg)))
         /\ l' = l + 1
-        /\ UNCHANGED <<nmis, names, cov>>
+        /\ UNCHANGED <<nmis, names, cov, reg>>
 
 TraceNext == Step \/ Done
 TraceSpec == TraceInit /\ [][TraceNext]_tvars
